@@ -4,15 +4,39 @@ use crate::dsched::AccountDelta;
 use crate::reference::AccountRead;
 use grevm::TxExecutionOutcome;
 use revm::database::{AccountRevert, BundleAccount, BundleState};
-use revm::primitives::Address;
+use revm::context::result::{ExecutionResult, HaltReason};
+use revm::primitives::{Address, KECCAK_EMPTY};
 use std::collections::BTreeMap;
+
+/// Representation noise the properties do not constrain: stock revm's precompile provider attaches
+/// a diagnostic string to a failing standard precompile, alloy-evm's `PrecompilesMap` (which grevm
+/// uses so that custom precompiles can be registered) reports the same halt without the string.
+pub fn normalise_result(r: &ExecutionResult) -> ExecutionResult {
+    match r {
+        ExecutionResult::Halt { reason: HaltReason::PrecompileErrorWithContext(_), gas, logs } => {
+            ExecutionResult::Halt { reason: HaltReason::PrecompileError, gas: gas.clone(), logs: logs.clone() }
+        }
+        other => other.clone(),
+    }
+}
+
+pub fn results_equal(a: &ExecutionResult, b: &ExecutionResult) -> bool {
+    a == b || normalise_result(a) == normalise_result(b)
+}
+
+pub fn outcome_equal(a: &TxExecutionOutcome, b: &TxExecutionOutcome) -> bool {
+    match (a, b) {
+        (TxExecutionOutcome::Executed(x), TxExecutionOutcome::Executed(y)) => results_equal(x, y),
+        _ => a == b,
+    }
+}
 
 pub fn compare_outcomes(reference: &[TxExecutionOutcome], actual: &[TxExecutionOutcome]) -> Result<(), String> {
     if reference.len() != actual.len() {
         return Err(format!("outcome count: reference {} vs grevm {}", reference.len(), actual.len()));
     }
     for (i, (r, a)) in reference.iter().zip(actual).enumerate() {
-        if r != a {
+        if !outcome_equal(r, a) {
             return Err(format!("outcome {i} differs: reference {r:?} vs grevm {a:?}"));
         }
     }
@@ -42,8 +66,10 @@ pub fn compare_bundles(reference: &BundleState, actual: &BundleState) -> Result<
             return Err(format!("bundle storage of {addr}: reference {ls:?} vs grevm {rs:?}"));
         }
     }
-    let lc: BTreeMap<_, _> = reference.contracts.iter().collect();
-    let rc: BTreeMap<_, _> = actual.contracts.iter().collect();
+    // The KECCAK_EMPTY -> empty-bytecode entry carries no information (it appears when a journal
+    // account was materialised with `code: Some(empty)` rather than `None`); ignored.
+    let lc: BTreeMap<_, _> = reference.contracts.iter().filter(|(h, _)| **h != KECCAK_EMPTY).collect();
+    let rc: BTreeMap<_, _> = actual.contracts.iter().filter(|(h, _)| **h != KECCAK_EMPTY).collect();
     if lc.keys().collect::<Vec<_>>() != rc.keys().collect::<Vec<_>>() {
         return Err(format!("bundle contracts differ: reference {:?} vs grevm {:?}", lc.keys(), rc.keys()));
     }
